@@ -141,18 +141,24 @@ prop(
 
 prop(
     "C08",
-    ["LolHtml.Thm.C08_Escape"],
+    ["LolHtml.Thm.C08_Escape", "LolHtml.Thm.C08_Real", "LolHtml.Thm.C08_Codec"],
     [{"lane": "esc", "n_quick": 3000, "n_thorough": 30000}],
-    "lane esc: body text / attribute values / comment text / attribute names / tag names biased to <>&\"'-!/= whitespace NUL comment terminators non-BMP unmappable; utf-8 and x-user-defined",
-    ["theorems are for UTF-8 documents (identity codec); other encodings are exercised by the lane and the re-tokenising oracle only",
+    "lane esc: body text / attribute values / comment text / attribute names / tag names biased to <>&\"'-!/= whitespace NUL comment terminators non-BMP unmappable; utf-8 and x-user-defined; `attrseq` cases: two set_attribute calls with multi-byte names in Shift_JIS / Big5 / GBK / UTF-8 (encoded name verified against encoding_rs)",
+    ["encodings: the codec-generic theorems (C08_Codec) hold for every lawful codec in which a non-ASCII scalar never encodes to a byte below 0x40 (StructSafe: proved for UTF-8, windows-1252, iso-8859-7 and the toy two-byte codec; gb18030's digit trail bytes are outside it); the other encodings are exercised by the lane and the re-tokenising oracle",
+     "known finding F22: names are compared ASCII-case-insensitively on the ENCODED bytes (Shift_JIS/Big5/GBK trail bytes): duplicate attributes / debug_assert; C08_F22_counterexample",
      "escape maps, reject lists and closing sequences are re-extracted from the Rust text on every run (translate/consts2lean.py); 20 side-conditions by decide", PKG_SCOPE],
     level_text=("Lean 4 theorems on the generated constants: escaped body text contains no < > and only complete entities and "
                 "decodes back (C08_body_no_markup), is one data-state run (C08_body_text_run); attribute values contain no "
                 "double quote; set_text accepts iff the WHATWG comment machine ends exactly at the final --> (C08_comment_iff, "
                 "necessary and sufficient); accepted tag/attribute names read back whole and each rejected byte splits a name "
                 "(C08_tag_name_iff, C08_attr_name_*); an accepted attribute re-parses as exactly one attribute "
-                "(C08_attribute_reads_back); setters leave the token unchanged on error (C08_reject_unchanged_*)."),
-    level_note="Trusted: Lean kernel; consts translator; small specs of the WHATWG comment / tag-name / attribute states written for this package.",
+                "(C08_attribute_reads_back); setters leave the token unchanged on error (C08_reject_unchanged_*). ON THE REAL LEXER "
+                "MODEL (generated table, recording sink, any prefix and any following input): escaped text is exactly one text "
+                "lexeme (C08_text_real), an accepted tag name / attribute serialises to exactly one start-tag lexeme whose name "
+                "and value ranges hold exactly the given bytes (C08_tagname_real, C08_attr_real), accepted comment text gives "
+                "exactly one comment lexeme with text range = the text (C08_comment_real) and rejected text ends the comment "
+                "early (C08_comment_real_early); codec-generic versions for lawful structure-safe codecs (C08_*_codec)."),
+    level_note="Trusted: Lean kernel; consts + DSL translators; small specs of the WHATWG comment / tag-name / attribute states (round 1); the real-lexer theorems use the core model tied by lane lex.",
     technique="Lean 4 proof (list induction; decidable side-conditions on translated constants) + correspondence lane + re-tokenising oracle",
     design_ref="DESIGN.md section 4 C08",
 )
